@@ -1,5 +1,6 @@
 pub mod c01;
 pub mod c03;
+pub mod c04;
 pub mod c05;
 pub mod c08;
 pub mod c09;
@@ -12,6 +13,7 @@ pub fn run(ctx: &Ctx) -> i32 {
     match ctx.id.as_str() {
         "C01" => c01::run(ctx),
         "C03" => c03::run(ctx),
+        "C04" => c04::run(ctx),
         "C05" => c05::run(ctx),
         "C08" => c08::run(ctx),
         "C09" => c09::run(ctx),
@@ -28,6 +30,7 @@ pub fn replay(id: &str, payload: &serde_json::Value) -> bool {
     match id {
         "C01" => c01::replay(payload),
         "C03" => c03::replay(payload),
+        "C04" => c04::replay(payload),
         "C05" => c05::replay(payload),
         "C08" => c08::replay(payload),
         "C09" => c09::replay(payload),
